@@ -105,7 +105,7 @@ def run(ctx):
                         elif content not in ans:
                             bad = {'request': q, 'expected': 'the preprocessed text of the file', 'implementation': ans[:300]}
                     elif q[0] == 'exec':
-                        want = 'empty:%s' % (content.split('= ')[1] if content else '0')
+                        want = 'empty:%s' % (re.match(r'gx = (\d+)', content).group(1) if content else '0')
                         if ans != want:
                             bad = {'request': q, 'expected (the script in the file ran)': want, 'implementation': ans[:300]}
                     elif q[0] == 'inc':
